@@ -879,10 +879,20 @@ def grad_einsum(argnum, ans, operands_, kwargs):
 
 defvjp_argnum(anp.einsum, grad_einsum)
 
-defvjp(
-    anp.diagonal,
-    lambda ans, A, offset=0, axis1=0, axis2=1: lambda g: anp.make_diagonal(g, offset, axis1, axis2),
-)
+
+def grad_diagonal(ans, A, offset=0, axis1=0, axis2=1):
+    def vjp(g):
+        square = anp.make_diagonal(g, offset, axis1, axis2)  # only offset=0, axis1=-1, axis2=-2
+        # the diagonal of a non-square matrix is shorter than one of its sides: embed into A's shape
+        n = anp.shape(square)[-1]
+        rows, cols = anp.shape(A)[-2:]
+        widths = [(0, 0)] * (anp.ndim(A) - 2) + [(0, rows - n), (0, cols - n)]
+        return anp.pad(square, widths, mode="constant")
+
+    return vjp
+
+
+defvjp(anp.diagonal, grad_diagonal)
 defvjp(
     anp.make_diagonal,
     lambda ans, D, offset=0, axis1=0, axis2=1: lambda g: anp.diagonal(g, offset, axis1, axis2),
